@@ -272,6 +272,8 @@ def run(tier, seed):
     # stopped mid-task and started again with the states reset (logs kept): still feasible
     rs = stepcheck.restarted_items([it for it in fe if it[1]["rule"] == "TSLACK"][:: (6 if tier == "quick" else 2)], ks=(1, 2, 3))
     colb.merge(stepcheck.explore(rs, [mon_feasible], 0, 0, seed=seed))
+    rb = [(sp, dict(o, resume_from=k, resume_via_json=how)) for sp, o in [it for it in fe if it[1]["rule"] == "TSLACK"][:: (9 if tier == "quick" else 3)] for k in (1, 2) for how in (True, "same")]
+    colb.merge(stepcheck.explore(rb, [mon_feasible], 0, 0, seed=seed))  # a checkpoint read back (new object / same object) before the run goes on
     colb.merge(engines.fanout(history_items(tier), work_history, seed=seed))
     inf = infeasible_items(tier)
     colc = stepcheck.explore(inf, [mon_infeasible], 2, 1, who_fn=lambda sp: ["P"], seed=seed)
